@@ -5,7 +5,10 @@ it has never heard of (a cache, a flag, a work list added by a change to the lib
 every explored history is a real execution - but it costs coverage exactly where a stale flag would bite.  `extras`
 therefore encodes *every* instance attribute outside the ones a module already hashes in its own way.
 """
+import re
+
 _ATOMS = (int, str, bool, type(None), bytes)
+_ADDR = re.compile(r"0x[0-9a-fA-F]+")
 
 
 def enc(v, depth=0):
@@ -38,7 +41,7 @@ def enc(v, depth=0):
         return (c.__name__,) + tuple((k, enc(getattr(v, k, None), depth + 1)) for k in ([sl] if isinstance(sl, str) else sl))
     if callable(v):
         return ("callable", getattr(v, "__qualname__", c.__name__))
-    return ("repr", c.__name__, repr(v)[:80])
+    return ("repr", c.__name__, _ADDR.sub("0x", repr(v))[:80])      # no memory address in a canonical form
 
 
 _OBS_STD = 13           # attributes of a freshly built Obs
